@@ -1371,6 +1371,10 @@ func (e *Exec) callContract(st *State, call *ast.CallExpr, fn *types.Func, c *Co
 			}
 			e.heapSet(st, k, e.Ctx.Define("hvk", cur))
 		}
+		if extra := e.P.CallbackExtra(fn); len(extra) > 0 {
+			e.havocKeys(st, extra)
+			e.assumeRelies(st, pre, fn, e.P.contractKeys(c), call.Pos())
+		}
 	} else if !c.NoBody {
 		ms := e.P.ModSet(fn)
 		keys := map[string]bool{}
@@ -1378,6 +1382,9 @@ func (e *Exec) callContract(st *State, call *ast.CallExpr, fn *types.Func, c *Co
 			keys[k] = true
 		}
 		e.havocKeys(st, keys)
+		if len(e.P.cbsets[fn]) > 0 {
+			e.assumeRelies(st, pre, fn, e.P.BaseModSet(fn), call.Pos())
+		}
 	}
 	e.havocMemo(st)
 	na := e.Ctx.Fresh("alloc", SInt)
@@ -1634,4 +1641,60 @@ func (p *Program) noteOnce(msg string) {
 		p.notes = map[string]bool{}
 	}
 	p.notes[msg] = true
+}
+
+// assumeRelies: after the keys written only by registered callback implementations were havocked at a call of fn,
+// assume the implementations' rely clauses between the pre-state and the current state - provided fn's own declared
+// frame does not write any of those keys (then every change of them went through the callback).
+func (e *Exec) assumeRelies(st, pre *State, fn *types.Func, own map[string]bool, pos token.Pos) {
+	for cb := range e.P.cbsets[fn] {
+		e.assumeReliesOf(st, pre, cb, own, pos)
+	}
+}
+
+func (p *Program) cbImplsOf(cb string) []*types.Func {
+	p.buildModsets()
+	return p.cbImpls[cb]
+}
+
+func (e *Exec) assumeReliesOf(st, pre *State, cb string, own map[string]bool, pos token.Pos) {
+	{
+		for _, impl := range e.P.cbImplsOf(cb) {
+			ic := e.P.ContractFor(impl)
+			if ic == nil || len(ic.Relies) == 0 {
+				continue
+			}
+			pkg := ""
+			if impl.Pkg() != nil {
+				pkg = impl.Pkg().Path()
+			}
+			clean := !own["*"]
+			for k := range own {
+				if ownPkgKey(k, pkg) {
+					clean = false
+				}
+			}
+			if !clean {
+				continue
+			}
+			isc, err := e.P.scopeFor(ic)
+			if err != nil {
+				continue
+			}
+			for _, rl := range ic.Relies {
+				if err := e.P.CheckClause(ic, rl, isc.pos, isc); err != nil {
+					e.unsupported(pos, "%v", err)
+					continue
+				}
+				if len(freeVarsOfClause(e.P.CInfo, rl.Expr)) > 0 {
+					continue
+				}
+				saved := e.specOld
+				e.specOld = pre
+				t := e.evalSpec(st, rl)
+				e.specOld = saved
+				e.assume(st, t)
+			}
+		}
+	}
 }
